@@ -31,7 +31,7 @@ extern "C" __attribute__((used, visibility("default"))) const char* __ubsan_defa
 namespace xs {
 
 const char* const kFaultNames[FK_N] = {"alloc_fail", "open_errno", "read_eio", "truncated_file", "short_reads",
-                                       "unseekable", "corrupt_content", "preemption"};
+                                       "unseekable", "corrupt_content", "preemption", "alloc_too_large"};
 const char* const kProbeNames[PR_N] = {
     "array_growth_path_taken", "insertion_at_exact_capacity", "builtin_refusal_at_512", "readfile_failure_after_first_crystal",
     "oom_handled_failure_path", "oom_swallowed", "fractional_subscript_parsed_in_decimal_comma_locale", "error_object_alive_10_ops",
@@ -356,6 +356,7 @@ const AllocInfo* live_find(const void* p) {
   return nullptr;
 }
 
+static const size_t kHugeAlloc = 64u << 20;
 // returns true if this allocation must fail
 static bool alloc_gate(size_t size, const char* what) {
   SH->seam_calls++;
@@ -367,6 +368,16 @@ static bool alloc_gate(size_t size, const char* what) {
     SH->cur_fault_fired = 1;
     SH->faults[FK_ALLOC]++;
     logf("A #%d %s %zu FAIL", t->op_allocs, what, size);
+    errno = ENOMEM;
+    return true;
+  }
+  if (size > kHugeAlloc) {
+    // the simulated machine has no memory for requests of this size (the library never needs more than a few MB):
+    // they fail the way malloc fails without overcommit, under the same policy as an injected failure (DESIGN 4)
+    t->fault_fired = true;
+    SH->cur_fault_fired = 1;
+    SH->faults[FK_ALLOC_HUGE]++;
+    logf("A #%d %s %zu FAIL(huge)", t->op_allocs, what, size);
     errno = ENOMEM;
     return true;
   }
@@ -554,7 +565,7 @@ void* xs_malloc(size_t n) {
   return p;
 }
 void* xs_calloc(size_t a, size_t b) {
-  if (alloc_gate(a * b, "calloc")) return nullptr;
+  if (alloc_gate(b && a > (size_t)-1 / b ? (size_t)-1 : a * b, "calloc")) return nullptr;
   void* p = (a && b && a * b / b != a) ? nullptr : pool_alloc(a * b, true);
   alloc_record(p, a * b, "calloc", RA0, ra1());
   return p;
@@ -586,8 +597,7 @@ void* xs_realloc(void* old, size_t n) {
 }
 // the rest of the allocator family: same gate, same accounting (no pool: alignment / libc-internal growth)
 void* xs_reallocarray(void* old, size_t a, size_t b) {
-  if (alloc_gate(a * b, "reallocarray")) return nullptr;
-  if (b && a > (size_t)-1 / b) { errno = ENOMEM; return nullptr; }
+  if (alloc_gate(b && a > (size_t)-1 / b ? (size_t)-1 : a * b, "reallocarray")) return nullptr;
   uintptr_t s0 = RA0, s1 = ra1();
   size_t n = a * b;
   if (g_reuse_mode && old && g_live.count((uintptr_t)old)) {
